@@ -33,7 +33,7 @@ m = {
  ],
  "checks": [],
  "not_applicable": [],
- "notes": "All verdicts are of the form 'held on K observed executions'. Exit 2 = inconclusive (monitor observed too little). Known genuine defects are in known_findings.json keyed by mechanism.",
+ "notes": "All verdicts are of the form 'held on K observed executions'. Exit 2 = inconclusive (monitor observed too little). Known genuine defects of the unchanged tree are in known_findings.json: keyed by mechanism, and for the seed-independent core workloads additionally by the failing case (history+step, corpus case, mutant), so the same mechanism on another input is still reported. 'fixed' entries name the repairing commit and suppress nothing. Seeded changes and which check catches them: DESIGN.md 8.6 and seeded/<id>/meta.json.",
 }
 for pid in props:
     if pid in CHECKS:
